@@ -123,3 +123,29 @@ Proof.
   destruct r as [|y r']; simpl; [reflexivity|].
   rewrite (H x y) by (simpl; auto). reflexivity.
 Qed.
+
+(* Sortedness with respect to a coarser relation R (e.g. "first component <="), needing only that
+   the comparison function implies R one way or the other. *)
+Section SortRel.
+Context {A : Type}.
+Variable leb : A -> A -> bool.
+Variable R : A -> A -> Prop.
+Hypothesis leb_R : forall x y, leb x y = true -> R x y.
+Hypothesis nleb_R : forall x y, leb x y = false -> R y x.
+Hypothesis R_trans : forall x y z, R x y -> R y z -> R x z.
+
+Lemma insert_sorted_rel x l : StronglySorted R l -> StronglySorted R (insert leb x l).
+Proof.
+  induction l as [|y r IH]; simpl; intros Hs.
+  - constructor; [constructor | constructor].
+  - inversion Hs as [|? ? Hr Hall]; subst. destruct (leb x y) eqn:E.
+    + constructor; [exact Hs|]. constructor; [apply leb_R; exact E|].
+      eapply Forall_impl; [|exact Hall]. intros a Ha. eapply R_trans; [apply leb_R; exact E | exact Ha].
+    + constructor; [apply IH; exact Hr|].
+      eapply Permutation_Forall; [apply Permutation_sym, insert_perm|].
+      constructor; [apply nleb_R; exact E | exact Hall].
+Qed.
+
+Lemma isort_sorted_rel l : StronglySorted R (isort leb l).
+Proof. induction l as [|x r IH]; simpl; [constructor | apply insert_sorted_rel; exact IH]. Qed.
+End SortRel.
